@@ -30,9 +30,12 @@ type kv struct {
 
 // val is a GraphQL input value that can be printed as a literal and as JSON.
 type val struct {
-	kind   vkind
-	s      string // string / enum / number text
-	b      bool
+	kind vkind
+	s    string // string / enum / number text
+	b    bool
+	// num: an ID value (kind vString, s a decimal integer) written as a number: the Int literal 7
+	// resp. the JSON number 7 instead of "7" (ID input coercion accepts both)
+	num    bool
 	list   []*val
 	fields []kv
 }
@@ -42,7 +45,11 @@ func (v *val) literal(sb *strings.Builder) {
 	case vNull:
 		sb.WriteString("null")
 	case vString:
-		sb.WriteString(strconv.Quote(v.s))
+		if v.num {
+			sb.WriteString(v.s)
+		} else {
+			sb.WriteString(strconv.Quote(v.s))
+		}
 	case vInt, vFloat, vEnum:
 		sb.WriteString(v.s)
 	case vBool:
@@ -75,6 +82,10 @@ func (v *val) json(sb *strings.Builder) {
 	case vNull:
 		sb.WriteString("null")
 	case vString, vEnum:
+		if v.kind == vString && v.num {
+			sb.WriteString(v.s)
+			break
+		}
 		b, _ := json.Marshal(v.s)
 		sb.Write(b)
 	case vInt, vFloat:
@@ -103,6 +114,27 @@ func (v *val) json(sb *strings.Builder) {
 		}
 		sb.WriteByte('}')
 	}
+}
+
+// quoted: a deep copy in which every ID written as a number is written as a string; n = how many.
+func (v *val) quoted(n *int) *val {
+	if v == nil {
+		return nil
+	}
+	c := *v
+	if c.kind == vString && c.num {
+		c.num = false
+		*n++
+	}
+	c.list = nil
+	for _, e := range v.list {
+		c.list = append(c.list, e.quoted(n))
+	}
+	c.fields = nil
+	for _, f := range v.fields {
+		c.fields = append(c.fields, kv{f.k, f.v.quoted(n)})
+	}
+	return &c
 }
 
 func (v *val) jsonString() string {
